@@ -4,7 +4,9 @@ import (
 	"bufio"
 	"encoding/json"
 	"fmt"
+	"github.com/freeconf/yang/fc"
 	"io"
+	"math"
 	"strconv"
 
 	"github.com/freeconf/yang/node"
@@ -310,6 +312,10 @@ func (wtr *JSONWtr) writeValue(p *node.Path, v val.Value) error {
 			}
 		case val.FmtDecimal64:
 			f := item.Value().(float64)
+			if math.IsNaN(f) || math.IsInf(f, 0) {
+				// no JSON number, and no decimal64 either
+				return fmt.Errorf("%w. %v is not a decimal64 value", fc.BadRequestError, f)
+			}
 			if _, err := wtr._out.WriteString(strconv.FormatFloat(f, 'f', -1, 64)); err != nil {
 				return err
 			}
